@@ -81,7 +81,7 @@ _spec_hash = None
 
 
 # bump when the logic of a stage in check.py / stages_ext.py changes what a stage produces
-STAGE_VERSION = "20"
+STAGE_VERSION = "21"
 
 
 def spec_hash():
@@ -1038,7 +1038,8 @@ def replay_owners(m):
             return ["C05"]                  # same entries, different recency order
         failed = (m.get("exp_tag") in ERR_TAGS) or (m.get("act_tag") in ERR_TAGS)
         if op in EVICTING and not failed:
-            return ["C03"]                  # entries left / stayed that should not have
+            # entries left / stayed that should not have; mutate's own statement covers its evictions too
+            return ["C03"] + (["C11"] if op == "mutate" else [])
         if op == "retain":
             return ["C15"]
         if op in ITER_KINDS:
